@@ -123,7 +123,7 @@ PROPS['C13'] = {
 PROPS['C16'] = {
     'level': 'fault_enumeration',
     'technique': 'crash injected after every API call of a lane-filling history; recovery by re-attach in the same process, a forked child and a freshly exec\'ed PIE process over a fixed-address memfd arena; reference FIFO + solo-output oracle',
-    'level_text': 'Manager, keys and all buffers live in a memfd arena at a fixed address. A history parks up to 15 jobs of unequal lengths in every out-of-order lane manager (with get_completed/flush calls interleaved); after every call, on all 7 variants, the arena is recovered in the same process and (quick: every 3rd crash point plus lane-boundary points; thorough: every crash point) in a forked child on a private view and in a freshly exec\'ed copy of the PIE binary (library at a different load address): imb_set_pointers_mb_mgr(.., 0) + flush must hand back exactly the reference FIFO of in-flight jobs, in order, COMPLETED with their solo outputs, and three follow-up jobs must work.',
+    'level_text': 'Manager, keys and all buffers live in a memfd arena at a fixed address. A history parks up to 15 jobs of unequal lengths in every out-of-order lane manager (with get_completed/flush calls interleaved); after every call, on all 7 variants, the arena is recovered in the same process and (quick: every 3rd crash point plus lane-boundary points; thorough: every crash point) in a forked child on a private view and in a freshly exec\'ed copy of the PIE binary (library at a different load address): imb_set_pointers_mb_mgr(.., 0) + flush must hand back exactly the reference FIFO of in-flight jobs, in order, COMPLETED with their solo outputs, and three follow-up jobs must work. A second recovery form at every crash point (same process; every second forked recovery) models the application carrying on: after the re-attach three more jobs are submitted to the lane manager the history used last before anything is flushed, then everything is flushed - the jobs in flight at the crash point followed by the continuation jobs must come back in that order with their solo outputs (no parked job displaced or disturbed by a lane the re-attach wrongly considers free).',
     'level_note': 'Two long histories per variant (unit-major: one lane manager filled after the other; round-robin: all lane managers occupied at once, about 190 jobs in flight) - not all histories; crash points are between API calls only, as the property states. The helper reports whether its code address differed from the primary (ASLR).',
     'drivers': [{'name': 'c16', 'src': ['props/c16.c'] + ALG, 'cfgs': ['std'], 'args': '', 'cflags': '-fPIE -pie'},
                 # second history: the same jobs round-robin over the units - all out-of-order managers occupied at once (~190 jobs in flight)
